@@ -66,6 +66,7 @@ inductive TEv where
   | begin (reopenOK : Bool)
   | commit (flushOK putOK : Bool)
   | rollback
+  | vacuum (reopenOK commitOK : Bool)   -- `s3db.Vacuum` outside a transaction: it commits a clone of the tree
 deriving DecidableEq, Repr
 
 inductive TOut where
@@ -86,6 +87,16 @@ def tstep (F : Facts) (t : T) : TEv → T × TOut
     else if !putOK then ({ t with commitFailed := true }, .err)
     else ({ t with inTx := false }, if t.tainted then .ackDangling else .ack)
   | .rollback => ({ t with inTx := false, poisoned := false }, .ok)   -- back to the clone taken at Begin
+  | .vacuum reopenOK commitOK =>
+    -- inside an open transaction: not modelled (observation O13); the state is left alone
+    if t.inTx then (t, .err)
+    else if F.failedCommitReopens && t.commitFailed && !reopenOK then (t, .err)
+    else
+      let t1 : T := if F.failedCommitReopens && t.commitFailed then {} else t
+      if commitOK then (t1, if t1.tainted then .ackDangling else .ack)
+      else
+        -- the clone is dropped, but it shares node objects with the table's tree
+        ({ t1 with tainted := true, commitFailed := t1.commitFailed || F.vacuumRemembersFailedCommit }, .err)
 
 def trun (F : Facts) : T → List TEv → T × List TOut
   | t, [] => (t, [])
